@@ -30,7 +30,6 @@ EXEMPT = {
     ("CPPTypedefType", "_attributes"): "attributes do not change which type the typedef denotes",
     ("CPPTypedefType", "_native_scope"): "not a field of the class (sets the identifier's scope)",
     ("CPPManifest", "_loc"): "source location, not identity", ("CPPManifest", "_parser"): "back pointer",
-    ("CPPFunctionType", "_class_owner"): "assigned after construction for pointer-to-member declarators only",
 }
 
 
@@ -266,6 +265,10 @@ def _self_reachable(cfg, l):
     return _after(cfg, l, (l[0], -1)) if l is not None else False
 
 
+# fields a printer reads that the uniquifier may ignore, with the reason
+PRINT_EXEMPT = {}
+
+
 def run(ctx):
     db = ctx.db
     rebuild_rules(ctx, "R06.5")
@@ -275,6 +278,9 @@ def run(ctx):
 
     n_cls = 0
     n_ob = 0
+    printers = [f for f in db.functions if "/cppparser/" in f.file and f.name.split("::")[-1] in ("output", "output_instance", "output_function", "output_template_specialization")]
+    if len(printers) < 20:
+        ctx.broken("printer functions (output/output_instance) not found: %d" % len(printers))
     for name, r in sorted(db.records.items()):
         if "/cppparser/" not in r["file"] or name in ("CPPExpression", "CPPDeclaration"):
             continue
@@ -304,6 +310,12 @@ def run(ctx):
                     b = base_of(t[0])
                     if (b is None or b.get("k") == "this") and any(x.get("k") == "ref" and x.get("d") in pids for x in walk(t[1])):
                         ident.setdefault(field_of(t[0]).split("::")[-1], c)
+        # ... and every field some printer reads: two objects that print differently must not be identified
+        printed = {}
+        for pf in printers:
+            for x in pf.walk():
+                if x.get("k") == "mem" and not x.get("method") and x.get("n", "").rsplit("::", 1)[0] == name:
+                    printed.setdefault(x["n"].split("::")[-1], pf)
         for which, fns in (("is_less", ls), ("is_equal", eq)):
             if not fns:
                 continue
@@ -311,13 +323,19 @@ def run(ctx):
                 ctx.info("R06.1 %s::%s is pointer identity" % (name, which))
                 continue
             own, other = _reads(fns[0], name)
-            for f in sorted(ident):
-                if (name, f) in EXEMPT or f not in fields:
+            for f in sorted(set(ident) | set(printed)):
+                if f not in fields:
+                    continue
+                if (name, f) in EXEMPT:
+                    continue
+                if f not in ident and (name, f) in PRINT_EXEMPT:
+                    ctx.info("R06.1 %s::%s is read by %s but need not be compared: %s" % (name, f, printed[f].name, PRINT_EXEMPT[(name, f)]))
                     continue
                 n_ob += 1
                 ok = f in own and f in other
+                why = "set from a constructor parameter" if f in ident else "read by the printer %s" % printed[f].name
                 ctx.ob("R06.1", "%s::%s|%s" % (name, which, f), ok, fns[0].loc(),
-                       "%s (set from a constructor parameter) is %scompared by %s()" % (f, "" if ok else "NOT ", which))
+                       "%s (%s) is %scompared by %s()" % (f, why, "" if ok else "NOT ", which))
     ctx.floor("R06.1", "classes with a structural is_less", n_cls, 8)
     ctx.floor("R06.1", "identity-field obligations", n_ob, 24)
 
